@@ -415,6 +415,19 @@ func applyForgery(cfg world.Cfg, ms []c08Member, fg c08Forgery) ([]c08Member, bo
 		}
 		out[i].Body = out[i].Body[:len(out[i].Body)/2]
 		return out, true
+	case "body-drop":
+		// the unsigned outer header announces no content at all; wrapper and signatures stay
+		if len(out[i].Body) == 0 {
+			return nil, false
+		}
+		out[i].Body = nil
+		return out, true
+	case "body-extend":
+		if len(out[i].Body) == 0 {
+			return nil, false
+		}
+		out[i].Body = append(append([]byte(nil), out[i].Body...), make([]byte, 512)...)
+		return out, true
 	case "duplicate":
 		out = append(out, out[i])
 		return out, true
@@ -429,7 +442,7 @@ func applyForgery(cfg world.Cfg, ms []c08Member, fg c08Forgery) ([]c08Member, bo
 	return out, true
 }
 
-var c08Kinds = []string{"outer-extra", "edit-keep", "edit-drop", "edit-garbage", "keep-garbage", "swap-sig", "edit-reencode", "stranger", "unsigned-plain", "unsigned-stfs", "body-edit", "body-swap", "body-truncate", "duplicate"}
+var c08Kinds = []string{"outer-extra", "edit-keep", "edit-drop", "edit-garbage", "keep-garbage", "swap-sig", "edit-reencode", "stranger", "unsigned-plain", "unsigned-stfs", "body-edit", "body-swap", "body-truncate", "body-drop", "body-extend", "duplicate"}
 var c08Fields = []string{"name", "size", "mode", "uid", "action", "replaces", "mtime"}
 var c08Sigs = []string{"", "!!!", "AAAA", "aGVsbG8gd29ybGQ=", "====", "not base64 at all", "AAAAAAAAAAAAAAAAAAAAAAAAAAAAAAAAAAAAAAAAAAAAAAAAAAAAAAAAAAAAAAAAAAAAAAAAAAAAAAAAAAAAAAAAAAAAAAAAAAAAAAAAAAA=", "wsBc", "iA=="}
 
